@@ -47,6 +47,7 @@ static long long fin_ids[MAXID]; static size_t nfin;
 static long long fin_count[MAXID];
 extern var Node;
 static long long fin_raise_id;                    /* the finaliser of this Node raises (once) */
+static long fin_holder_n;                         /* > 0: the Nodes 1000 .. 1000+n-1 are holders (see holders_build) */
 static int fin_allocs;                            /* > 0: every Node finaliser allocates that many managed objects */
 static long long anode_fin, anode_dealloc;        /* every finalised arena object is also handed back to its own deallocator */
 static void Node_New(var self, var args) { struct Node* n = self; n->id = c_int(get(args, $I(0))); n->canary = NODE_CANARY; n->link[0] = n->link[1] = NULL; }
@@ -59,6 +60,11 @@ static void Node_Del(var self) {
   if (type_of(self) != Node) anode_fin++;
   if (fin_raise_id && id == fin_raise_id) { fin_raise_id = 0; throw(ValueError, "finaliser of %i raises", $I(id)); }
   if (fin_allocs > 0) { for (int k = 0; k < fin_allocs; k++) { var g = new(Int, $I(k)); (void)g; } }    /* a finaliser that allocates */
+  if (fin_holder_n > 0 && id >= 1000 && id < 1000 + fin_holder_n && n->link[0]) {      /* a holder: releases the root resource it owns and leaves a note */
+    var res = n->link[0]; n->link[0] = NULL;
+    del_root(res);
+    var note = new(Node, $I(id + 2 * fin_holder_n)); (void)note;
+  }
 }
 var Node = Cello(Node, Instance(New, Node_New, Node_Del));
 
@@ -317,6 +323,66 @@ static void __attribute__((noinline)) boxcont_build(long n) {
   var e2 = new(Box, new(Node, $I(1000 + n))); ref(e2, NULL);    /* ... and one that gave its object up */
 }
 
+/* containers of Boxes that stay REACHABLE (through one Tuple in a stack slot) while collections run: what the Boxes own is
+   contained, so no collection may finalise it; the maps use hashed (String) and scattered (Int) keys, so their entries lie
+   anywhere in the slot array / tree, not in the first len positions */
+static volatile var* boxheld_slot;
+static void __attribute__((noinline)) boxheld_build(long n) {
+  volatile var* slot = boxheld_slot;
+  var a = new(Array, Box), l = new(List, Box), t = new(Table, Int, Box), ts = new(Table, String, Box), r = new(Tree, String, Box), ri = new(Tree, Int, Box);
+  *slot = new(Tuple, a, l, t, ts, r, ri);
+  char kb[32];
+  for (long i = 0; i < n; i++) {
+    var nd = new(Node, $I(1000 + i));
+    snprintf(kb, sizeof kb, "key-%ld", i * 7919 + 13);
+    switch (i % 6) {
+      case 0: push(a, nd); break; case 1: push(l, nd); break;
+      case 2: set(t, $I(i * 104729 + 17), $(Box, nd)); break;
+      case 3: set(ts, $S(kb), $(Box, nd)); break;
+      case 4: set(r, $S(kb), $(Box, nd)); break;
+      default: set(ri, $I(i * 104729 + 17), $(Box, nd)); break;
+    }
+  }
+}
+static long __attribute__((noinline)) boxheld_drop(void) {
+  volatile var* slot = boxheld_slot;
+  var tp = *slot; long k = 0;
+  for (int i = 0; i < 6; i++) { var c = get(tp, $I(i)); k += (long)len(c); }
+  *slot = NULL;
+  return k;
+}
+
+/* holders: n managed Nodes (ids 1000 ..) each owning a ROOT Node (ids 1000+n ..) that its finaliser releases with del_root,
+   allocating one more managed Node (ids 1000+2n ..) while it is at it; they stay reachable until the program ends, so all of
+   this happens inside teardown - which has to finalise the holders, the resources and the notes, each once */
+static void __attribute__((noinline)) holders_build(long n) {
+  var keep = new(List, Ref);
+  *boxheld_slot = keep;
+  for (long i = 0; i < n; i++) {
+    var hd = new(Node, $I(1000 + i));
+    ((struct Node*)hd)->link[0] = new_root(Node, $I(1000 + n + i));
+    push(keep, $R(hd));
+  }
+}
+
+/* an object whose ONLY reference is a callee-saved register of the running thread (what an optimising compiler does with a
+   local that is live across calls; pinned here so that it does not depend on optimisation flags): it is reachable, so forced
+   and threshold collections leave it alone */
+static long __attribute__((noinline)) reghold_run(void) {
+#if defined(__GNUC__) && !defined(__clang__) && defined(__x86_64__)
+  long bad = 0;
+  register var held asm("r15");
+  held = new(Node, $I(1000));
+  scrub(); do_collect(0); scrub(); do_collect(1); do_collect(0);
+  if (fin_count[1000]) bad++;
+  else if (((struct Node*)held)->id != 1000) bad++;
+  held = NULL;
+  return bad;
+#else
+  return 0;
+#endif
+}
+
 static void __attribute__((noinline)) plain_nodes_build(long base, long n) { for (long i = 0; i < n; i++) { var nd = new(Node, $I(base + i)); (void)nd; } }
 
 /* a heap Tuple one of whose items is NULL (set, push and the constructor accept it): the collector meets it while marking */
@@ -561,6 +627,30 @@ static int __attribute__((noinline)) real_main(int argc, char** argv) {
       HC_TRY(boxcont_build(n); scrub(); do_collect(0); do_collect(1); do_collect(0));
       long twice = 0, gone = 0; for (long i = 0; i <= n; i++) { if (fin_count[1000 + i] > 1) twice++; if (fin_count[1000 + i] == 1) gone++; }
       ev_begin("bulk"); ev_int("n", n); ev_int("rooted", 0); ev_int("lost", 0); ev_int("twice", twice); ev_int("stale", 0); ev_int("gone", gone);
+      ev_str("exc", hc_exc); ev_int("line", cur_line); ev_end();
+    } else if (hc_is(0, "boxheld")) {          /* boxheld <n> : containers of Boxes stay reachable across collections, then become garbage */
+      long n = (long)hc_int(1); if (n > 20000) n = 20000;
+      bulkn = n;
+      long lost = 0, kept = 0;
+      boxheld_slot = &ROOTSLOT(30);
+      HC_TRY(boxheld_build(n); scrub(); do_collect(0); do_collect(1); do_collect(0));
+      for (long i = 0; i < n; i++) if (fin_count[1000 + i]) lost++;            /* finalised while still contained */
+      HC_TRY(kept = boxheld_drop(); scrub(); do_collect(0); do_collect(1); do_collect(0));
+      if (kept != n) lost++;
+      long twice = 0, gone = 0; for (long i = 0; i < n; i++) { if (fin_count[1000 + i] > 1) twice++; if (fin_count[1000 + i] == 1) gone++; }
+      ev_begin("bulk"); ev_int("n", n); ev_int("rooted", 1); ev_int("lost", lost); ev_int("twice", twice); ev_int("stale", 0); ev_int("gone", gone);
+      ev_str("exc", hc_exc); ev_int("line", cur_line); ev_end();
+    } else if (hc_is(0, "holders")) {          /* holders <n> : finalisers that release a root and allocate, all run by teardown */
+      long n = (long)hc_int(1); if (n > 300) n = 300;
+      bulkn = 3 * n; fin_holder_n = n; boxheld_slot = &ROOTSLOT(30);
+      HC_TRY(holders_build(n); scrub(); do_collect(0); do_collect(1));
+      long lost = 0; for (long i = 0; i < 3 * n; i++) if (fin_count[1000 + i]) lost++;           /* nothing is garbage yet */
+      ev_begin("bulk"); ev_int("n", n); ev_int("rooted", 1); ev_int("lost", lost); ev_int("twice", 0); ev_int("stale", 0); ev_int("gone", 0);
+      ev_str("exc", hc_exc); ev_int("line", cur_line); ev_end();
+    } else if (hc_is(0, "reghold")) {          /* reghold : the only reference to an object is a CPU register while collections run */
+      bulkn = 1; long bad = 0;
+      HC_TRY(bad = reghold_run());
+      ev_begin("bulk"); ev_int("n", 1); ev_int("rooted", 1); ev_int("lost", bad); ev_int("twice", 0); ev_int("stale", 0); ev_int("gone", 0);
       ev_str("exc", hc_exc); ev_int("line", cur_line); ev_end();
     } else if (hc_is(0, "finalloc")) {         /* finalloc <n> <k> : n garbage Nodes whose finalisers allocate k objects each, in the middle of a sweep */
       long n = (long)hc_int(1); if (n > 20000) n = 20000;
